@@ -34,6 +34,7 @@ ASSUMPTIONS = [
     "tolerance 1e-6 relative; sklearn's pairwise_kernels, KernelRidge, KernelPCA, Ridge are trusted",
     "score's held-out loss is the documented formula with K_VV centred in feature space by the training mean when center=True",
 ]
+RULE = RULE + " " + forms.RULE_SUFFIX
 KERNELS = ("linear", "rbf", "poly", "sigmoid", "cosine")
 
 
